@@ -33,6 +33,9 @@ DD = "black_it.utils.base:digitize_data"
 
 
 def run(ctx: Context) -> None:
+    # snapping is a function of (grid, value): the helpers keep nothing between calls (module-state rule of C05, kept to utils/base.py)
+    from . import c18 as _c18
+    ctx.rule(_c18.no_shared_tables, "black_it/utils/base.py")
     ctx.rule(r1_r3_get_closest)
     ctx.rule(r2_digitize)
     ctx.rule(dtype_rule)
